@@ -306,6 +306,7 @@ func specFirstMatch(leaf []byte, p int, kh uint64, klen int) bool {
 
 // Get: exist iff some entry stores the key hash; the item is decoded from the first such entry.
 //@ func (sh *SliceHeader) Get
+//@   timeout 45
 //@   props C08
 //@   ints bv
 //@   enumerate Conf.TreeKeyHashLen in 5 6 7 8
@@ -324,6 +325,7 @@ func specFirstMatch(leaf []byte, p int, kh uint64, klen int) bool {
 
 // Set: overwrite the first entry that stores the key hash, else append one entry; returns the old item.
 //@ func (sh *SliceHeader) Set
+//@   timeout 45
 //@   props C08
 //@   ints bv
 //@   enumerate Conf.TreeKeyHashLen in 5 6 7 8
@@ -353,6 +355,7 @@ func specFirstMatch(leaf []byte, p int, kh uint64, klen int) bool {
 // Remove: if the first entry that stores the key hash has the given offset (or oldPos.ChunkID == -1),
 // delete it: the tail moves down by one entry and the leaf shrinks by one entry.
 //@ func (sh *SliceHeader) Remove
+//@   timeout 45
 //@   props C08
 //@   ints bv
 //@   enumerate Conf.TreeKeyHashLen in 5 6 7 8
